@@ -269,13 +269,18 @@ example : containsT liveCfg tSample "a.x..b".toList = .ok true ∧
 /-! ## 4. key iteration -/
 
 /-- **Every listed key looks up to the listed value and is a member** — for every dotdict whose raw
-keys are identifiers and whose lists of mappings have at most 10 elements (`shortK`: a longer list
-is listed with space-padded indices, which is outside the literal-index model). -/
+keys are identifiers, with lists of mappings of any length: an element of a list of ten or more
+mappings is listed with a right-aligned index (`rows[ 3].v`), which reads back as the same element
+(`parseSeg_idxSeg`, `parseIdx_padIdx`: the decimal digits `natDigits` writes are read back by `parseInt`). -/
 theorem listed_key_looks_up (cfg : Cfg) (kvs : Kvs)
-    (hw : wfK isIdent kvs = true) (hs : shortK kvs = true) (k : Name) (v : Tree)
+    (hw : wfK isIdent kvs = true) (k : Name) (v : Tree)
     (h : (k, v) ∈ items (.node kvs)) :
     getT cfg (.node kvs) k = .ok v ∧ containsT cfg (.node kvs) k = .ok true :=
-  items_lookup cfg kvs hw hs k v h
+  items_lookup cfg kvs hw k v h
+
+/-- a right-aligned index, whatever the field width, reads back as the index -/
+theorem padded_index_reads_back (w n : Nat) : parseIdx (padIdx w n) = some (n : Int) :=
+  parseIdx_padIdx w n
 
 /-- **Key iteration lists exactly the leaf paths**: `(key, v)` is yielded iff `key` is the dotted
 form of a path that descends through non-empty levels by name and through non-empty lists of
@@ -299,7 +304,22 @@ def tIter : Tree := .node [("a".toList, .node [("b".toList, .leaf 1), ("e".toLis
   ("l".toList, .list [.node [("x".toList, .leaf 1)], .node [], .node [("y".toList, .node [("z".toList, .leaf 2)])]]),
   ("m".toList, .list [.leaf 1, .node [("x".toList, .leaf 1)]])]
 
-example : wfK isIdent (rootKvs tIter) = true ∧ shortK (rootKvs tIter) = true := by decide +kernel
+example : wfK isIdent (rootKvs tIter) = true := by decide +kernel
+
+/-- eleven mappings in a list: the listed keys carry right-aligned indices and look up -/
+def tRows : Tree := .node [("rows".toList, .list ((List.range 11).map fun i => .node [("v".toList, .leaf (.int (Int.ofNat i)))])),
+  ("n".toList, .leaf .none)]
+
+example : keys tRows = ["rows[ 0].v", "rows[ 1].v", "rows[ 2].v", "rows[ 3].v", "rows[ 4].v", "rows[ 5].v",
+    "rows[ 6].v", "rows[ 7].v", "rows[ 8].v", "rows[ 9].v", "rows[10].v", "n"].map String.toList := by
+  decide +kernel
+example : getT liveCfg tRows "rows[ 3].v".toList = .ok (.leaf 3) ∧
+    getT liveCfg tRows "rows[10].v".toList = .ok (.leaf 10) ∧
+    getT liveCfg tRows "rows[03].v".toList = .error .oom := by decide +kernel
+
+/-- a stored `None` is a value like any other: the path is in the tree, `setdefault` leaves it alone -/
+example : containsT liveCfg tRows "n".toList = .ok true ∧ getT liveCfg tRows "n".toList = .ok (.leaf .none) ∧
+    setdefaultT liveCfg tRows "n".toList (.tree (.leaf 5)) = (tRows, .ok (.leaf .none)) := by decide +kernel
 example : keys tIter = ["a.b".toList, "a.e".toList, "l[0].x".toList, "l[2].y.z".toList, "m".toList] := by decide +kernel
 
 /-! ## 5. deletion -/
